@@ -123,7 +123,7 @@ def gen_sum(rng, n, tier):
                     if rng.random() < 0.3:
                         pnt[2] = float(nodata)
         out.append({'tracks': tracks, 'nodata': nodata, 'res': [rng.choice([0.5, 1, 2, 3]), rng.choice([0.5, 1, 2, 3])], 'margin': rng.choice([0.0, 0.0, 0.25, 0.5]),
-                    'order': rng.sample(OPS, len(OPS)), 'layout': rng.choice([None, None, [False, True], [True, False, True]]), 'again': rng.choice([None, None, None, 'same', 'other']), 'fname': rng.choice(['f', 'f', 'f', 'd', 'id', 'u', 'i', 'ui', 'v', 'speed2'])})
+                    'order': rng.sample(OPS, len(OPS)), 'layout': rng.choice([None, None, [False, True], [True, False, True]]), 'again': rng.choice([None, None, None, 'same', 'other']), 'fname': rng.choice(['f', 'f', 'f', 'd', 'id', 'u', 'i', 'ui', 'v', 'speed2']), 'nanz': rng.random() < 0.2})
     return out
 
 
@@ -136,7 +136,8 @@ def run_sum(case):
     trs = []
     FN = case.get('fname', 'f')                      # the name of the summarised feature is the user's: short names, pieces of the reserved name "uid"
     for pts in case['tracks']:
-        t = Track([Obs(ENUCoords(x, y, 0), ObsTime.readUnixTime(i)) for i, (x, y, v) in enumerate(pts)], user_id=11 + len(trs))
+        zz = (lambda i: nan if (i + len(trs)) % 3 == 0 else 12.5) if case.get('nanz') else (lambda i: 0)      # a 2-D survey: some altitudes unknown; the grid is planimetric
+        t = Track([Obs(ENUCoords(x, y, zz(i)), ObsTime.readUnixTime(i)) for i, (x, y, v) in enumerate(pts)], user_id=11 + len(trs))
         if case.get('layout') and case['layout'][len(trs) % len(case['layout'])]:
             t.createAnalyticalFeature('g', [1000.0 + i for i in range(len(pts))])      # another feature created first on this track: 'f' is not stored at the same index on every track
         t.createAnalyticalFeature(FN, [nan if v is None else v for (_, _, v) in pts])
